@@ -237,6 +237,42 @@ def shrunk_cases(gen, rng, n, Ms):
     return out
 
 
+PROV_CFG = """INIT Init
+NEXT Next
+CONSTANTS
+ Radii = {"1", "2", "6371229", "1/2"}
+ PreOps = {"face_lon", "construct_face_centers", "normalize"}
+ MaxPre = %d
+INVARIANT TypeOK
+INVARIANT UnitSourceNeverMixed
+INVARIANT NormalizeLastUnmixes
+INVARIANT SameSphereWhenBothSupplied
+INVARIANT Emit
+CHECK_DEADLOCK FALSE
+"""
+
+
+def prov_scenarios(ctx, max_pre):
+    """TLC enumerates coordinate provenance x scale x history before get_dual() (DualProv.tla)."""
+    r = ctx.tlc_ok("DualProv", PROV_CFG % max_pre, what="provenance x radius x history scenarios (MaxPre=%d)" % max_pre, workers=4, timeout=600)
+    out = []
+    for v in r.prints:
+        if isinstance(v, tuple) and len(v) == 2 and v[0] == "PROV":
+            e = v[1]
+            out.append({"nodes": e["nodes"], "centres": e["centres"], "radius": e["radius"], "hist": list(e["hist"]),
+                        "mixed": bool(e["mixed"]), "node_scale": e["node_scale"], "face_scale": e["face_scale"]})  # fmt: skip
+    if not out:
+        raise Machinery("DualProv emitted no scenario")
+    out.sort(key=lambda p: (len(p["hist"]), p["hist"], p["nodes"], p["centres"], p["radius"]))
+    return out
+
+
+def with_prov(case, p, k, data=False):
+    tag = "n:%s,c:%s,R:%s,h:%s" % (p["nodes"], p["centres"], p["radius"], "+".join(p["hist"]) or "-")
+    c = dict(case, id="%s/prov=%s" % (case["id"], tag), prov=p, variant=k, data=data, centres="prov")
+    return c
+
+
 def start_jit_off(ctx, cases):
     """Replay a subset with numba's JIT disabled, in one subprocess (runs beside the main replay)."""
     src = os.path.join(ctx.work, "jitoff_cases.json")
@@ -347,9 +383,36 @@ def run(ctx):
     ctx.note("fine_meshes", {"shrunk_catalogue_caps": len(fine), "with_pole_node": sum(c["pole_node"] for c in fine),
                              "with_antimeridian_node": sum(c["antimeridian_node"] for c in fine)})  # fmt: skip
 
+    # provenance x scale x history (DualProv.tla) crossed with every mesh family, fine meshes included
+    scen = prov_scenarios(ctx, 2 if thorough else 1)
+    plain = [p for p in scen if not p["hist"]]
+    withh = [p for p in scen if p["hist"]]
+    fams = [c for c in gen if c["closed"] and not c["renumbered"] and c["rot"] == 0]
+    fams += [c for c in gen if not c["renumbered"] and c["rot"] == rots[0] and c["cut"] in (0, 5) and c["n_qual"] > 0 and c["name"] in ("pyramid7", "tetrakis_cube", "triakis_octahedron", "truncated_cube_split")]
+    pcases, k = [], 0
+    for c in fams:
+        for p in plain:
+            pcases.append(with_prov(c, p, k, data=(k % 7 == 0)))
+            k += 1
+    hpool = fams if thorough else fams[:: 1]
+    for j, p in enumerate(withh):
+        for c in (hpool if thorough else [hpool[j % len(hpool)], hpool[(j * 7 + 3) % len(hpool)]]):
+            pcases.append(with_prov(c, p, k, data=(k % 7 == 0)))
+            k += 1
+    for j, c in enumerate(fine):
+        for p in (scen[(3 * j) % len(scen)], scen[(3 * j + 1) % len(scen)], plain[j % len(plain)]):
+            pcases.append(with_prov(dict(c, centres="prov"), p, k))
+            k += 1
+    seen = set()
+    pcases = [c for c in pcases if not (c["id"] in seen or seen.add(c["id"]))]
+    cases += pcases
+    ctx.note("provenance_scenarios", {"scenarios": len(scen), "mixed_scale_at_get_dual": sum(p["mixed"] for p in scen),
+                                      "cases": len(pcases), "families": len(fams)})  # fmt: skip
+
     # inputs beyond the enumerated scope (code -> spec)
     big = planar_cases(rng, 150 if thorough else 12, 14 if thorough else 9)
     big += planar_fine_cases(rng, 64 if thorough else 16, 9)
+    big += [with_prov(c, scen[(5 * j + 2) % len(scen)], j) for j, c in enumerate(big)]
     if thorough:
         for tag, path, kw in FILES:
             if os.path.exists(path):
@@ -357,7 +420,7 @@ def run(ctx):
                             "variant": 0, "data": True, "n_qual": 1})  # fmt: skip
 
     # JIT off: a subset, in one subprocess
-    jo_src = [c for c in cases if c["centres"] == "derived" and (c["rot"] in (0, rots[2]) or c["renumbered"])]
+    jo_src = [c for c in cases if c["centres"] in ("derived", "prov") and (c["rot"] in (0, rots[2]) or c["renumbered"])]
     jo_src = rng.sample(jo_src, min(len(jo_src), 600 if thorough else 70))
     jo_cases = [dict(c, id=c["id"] + "/jit=off") for c in jo_src] + [dict(c, id=c["id"] + "/jit=off") for c in big[:6] + [b for b in big if b.get("fine")][:6]]
     proc, dst = start_jit_off(ctx, jo_cases)
@@ -397,6 +460,8 @@ def run(ctx):
             "closed": bool(c["closed"]),
             "source": "file" if "file" in c else ("planar" if "lon" in c else "catalogue"),
             "fine": bool(c.get("fine")),
+            "mixed_scale": bool((c.get("prov") or {}).get("mixed")),
+            "radius": (c.get("prov") or {}).get("radius", "1"),
         }
 
     def replay_of(rid):
